@@ -4,6 +4,7 @@
 From Coq Require Import List Arith Lia Ring Field.
 Import ListNotations.
 Require Import Base.C20_Ring Model.C20_Tensor Gen.C20Gen_np Gen.C20Gen_jx.
+Require Import Proofs.C20_NonlinProofs Proofs.C20_SumProofs.
 
 Ltac idx2 i := destruct i as [|[|i]]; [| |exfalso; lia].
 Ltac idx3 i := destruct i as [|[|[|i]]]; [| | |exfalso; lia].
@@ -146,6 +147,38 @@ Section RingPart.
   Lemma det2_variants_agree (A : mat) : np_det_2 A = jx_det_2 A.
   Proof. reflexivity. Qed.
 End RingPart.
+
+(* ---- laws that hold for EVERY extent n (finite-sum algebra, Proofs.C20_SumProofs) *)
+Section AllExtents.
+  Context {R : Type} {ops : FOps R}.
+  Hypothesis Rth : ring_theory f0 f1 fadd fmul fsub fopp (@eq R).
+  Add Ring Rring20n : Rth.
+  Open Scope F_scope.
+
+  Lemma mul_eye_all_n n (w : R) (x : vec R) i : i < n -> np_mul n (np_eye n w) x i = w * x i.
+  Proof.
+    intros Hi. cbv [np_mul es_ij_j__i].
+    rewrite (fsum_ext n _ (fun c => (if Nat.eqb i c then w else 0) * x c)).
+    - apply (fsum_delta Rth n i w x Hi).
+    - intros c _. rewrite (eye_def Rth). reflexivity.
+  Qed.
+
+  Lemma helper_laws_all_n n (u v x : vec R) (A B : mat R) (w : R) :
+    np_dot n u v = np_dot n v u /\
+    np_ddot n A B = np_trace n (jx_mul_mm n (np_transpose n A) B) /\
+    np_ddot n A B = np_ddot n B A /\
+    (forall i, np_mul n (jx_mul_mm n A B) x i = np_mul n A (np_mul n B x) i) /\
+    (forall i k, np_transpose n (jx_mul_mm n A B) i k = jx_mul_mm n (np_transpose n B) (np_transpose n A) i k) /\
+    (forall i, i < n -> np_mul n (np_eye n w) x i = w * x i) /\
+    np_trace n (np_prod2 n u v) = np_dot n u v /\
+    (forall i, np_mul n (np_prod2 n u v) x i = u i * np_dot n v x).
+  Proof.
+    split; [exact (es_i_i_comm Rth n u v)|]. split; [exact (ddot_is_trace Rth n A B)|].
+    split; [exact (ddot_comm Rth n A B)|]. split; [intros i; exact (matvec_assoc Rth n A B x i)|].
+    split; [intros i k; exact (transpose_product Rth n A B i k)|]. split; [intros i Hi; exact (mul_eye_all_n n w x i Hi)|].
+    split; [reflexivity | intros i; exact (outer_matvec Rth n u v x i)].
+  Qed.
+End AllExtents.
 
 Section FieldPart.
   Context {R : Type} {ops : FOps R}.
